@@ -1,12 +1,446 @@
 package xr
 
 import (
+	"fmt"
+	"math/big"
+	"strings"
+
+	ics23 "github.com/confio/ics23/go"
+	ibccommitment "github.com/cosmos/ibc-go/v3/modules/core/23-commitment/types"
+
+	"github.com/ethereum/go-ethereum/common"
+	ethcrypto "github.com/ethereum/go-ethereum/crypto"
+
+	sdk "github.com/cosmos/cosmos-sdk/types"
+	govtypes "github.com/cosmos/cosmos-sdk/x/gov/types"
+
+	aggregatetypes "github.com/teleport-network/teleport/x/aggregate/types"
+	clienttypes "github.com/teleport-network/teleport/x/xibc/core/client/types"
+
 	"tsim/kernel"
+	"tsim/node"
 )
 
-func (w *world) applyCorruption(rm *relayMsg, c *corruption) {}
-func (w *world) opCrash(op kernel.Op)                        {}
-func (w *world) doCrash(c *xchain, point string)             {}
-func (w *world) opExport(op kernel.Op)                       {}
-func (w *world) applyExt(op kernel.Op) bool                  { return false }
-func (w *world) afterExt(c *xchain, in *intent, out *txOutcome) {}
+// ------------------------------------------------------------------------------------------------
+// transport corruption (Byzantine relayer)
+
+var corruptKinds = []string{"packet_field", "packet_reencode", "payload_swap", "ack_bytes", "proof_bits", "proof_swap", "proof_trunc", "proof_empty", "height_shift", "signer_swap"}
+
+func (w *world) applyCorruption(rm *relayMsg, c *corruption) {
+	kind := c.kind
+	arg := c.arg
+	from := w.chains[rm.from]
+	switch kind {
+	case "packet_field":
+		p, err := DecodePacket(rm.packet)
+		if err != nil {
+			return
+		}
+		switch kernel.Mod(arg, 8) {
+		case 0:
+			p.Sender = lower(w.adv.Eth)
+		case 1:
+			if t, err := DecodeTransfer(p.TransferData); err == nil {
+				t.Amount = new(big.Int).Add(amountOf(t), big.NewInt(1)).Bytes()
+				t.Receiver = lower(w.adv.Eth)
+				bz, _ := transferArgs.Pack(t)
+				p.TransferData = bz
+			} else {
+				p.TransferData = append(p.TransferData, 0)
+			}
+		case 2:
+			p.CallData = append(append([]byte{}, p.CallData...), 1)
+		case 3:
+			p.CallbackAddress = lower(w.adv.Eth)
+		case 4:
+			p.FeeOption++
+		case 5:
+			p.Sequence++
+		case 6:
+			p.SrcChain, p.DstChain = p.DstChain, p.SrcChain
+		case 7:
+			p.Sequence += 1000
+		}
+		rm.packet = p.Encode()
+	case "packet_reencode":
+		// same value, non-canonical bytes: trailing padding is ignored by ABI decoders
+		rm.packet = append(append([]byte{}, rm.packet...), make([]byte, 32)...)
+	case "payload_swap":
+		var others []*wireMsg
+		for _, m := range w.wire {
+			if m.kind == "recv" && string(m.packet) != string(rm.packet) {
+				others = append(others, m)
+			}
+		}
+		if len(others) == 0 {
+			return
+		}
+		rm.packet = others[kernel.Mod(arg, len(others))].packet
+	case "ack_bytes":
+		if rm.kind != "ack" {
+			kind = "packet_field"
+			w.applyCorruption(rm, &corruption{kind: kind, arg: arg})
+			return
+		}
+		a, err := DecodeAck(rm.ack)
+		if err != nil {
+			return
+		}
+		switch kernel.Mod(arg, 4) {
+		case 0:
+			if a.Code == 0 {
+				a.Code = 1
+			} else {
+				a.Code = 0
+			}
+		case 1:
+			a.Result = append(a.Result, 7)
+		case 2:
+			a.Relayer = w.adv.Acc.String()
+		case 3:
+			a.Message += "x"
+		}
+		rm.ack = a.Encode()
+	case "proof_bits":
+		if len(rm.proof) == 0 {
+			return
+		}
+		cp := append([]byte{}, rm.proof...)
+		cp[kernel.Mod(arg, len(cp))] ^= byte(1 << uint(kernel.Mod(arg/7, 8)))
+		rm.proof = cp
+	case "proof_swap":
+		// a valid proof, but of another key or another version, under the unchanged claimed height
+		p, err := DecodePacket(rm.packet)
+		if err != nil {
+			return
+		}
+		v := int64(rm.proofHeight.RevisionHeight) - 1
+		var key string
+		if arg%2 == 0 {
+			key = fmt.Sprintf("commitments/%s/%s/sequences/%d", p.SrcChain, p.DstChain, p.Sequence)
+			if rm.kind == "recv" {
+				key = fmt.Sprintf("acks/%s/%s/sequences/%d", p.SrcChain, p.DstChain, p.Sequence)
+			}
+		} else {
+			key = fmt.Sprintf("commitments/%s/%s/sequences/%d", p.SrcChain, p.DstChain, p.Sequence)
+			if rm.kind == "ack" {
+				key = fmt.Sprintf("acks/%s/%s/sequences/%d", p.SrcChain, p.DstChain, p.Sequence)
+			}
+			if v-1 >= from.InitialH {
+				v--
+			}
+		}
+		proof, _, _, err := from.QueryProof("xibc", []byte(key), v)
+		if err != nil {
+			return
+		}
+		rm.proof = proof
+	case "proof_trunc":
+		rm.proof = append([]byte{}, rm.proof[:len(rm.proof)/2]...)
+	case "proof_empty":
+		rm.proof = nil
+	case "height_shift":
+		d := uint64(1 + kernel.Mod(arg, 3))
+		if arg%2 == 0 && rm.proofHeight.RevisionHeight > d {
+			rm.proofHeight.RevisionHeight -= d
+		} else {
+			rm.proofHeight.RevisionHeight += d
+		}
+	case "signer_swap":
+	default:
+		return
+	}
+	rm.corrupted = kind
+	w.rec.Fault("net.corrupt." + kind)
+}
+
+// verifyProofIndependently checks the submitted proof bytes with ibc-go's ICS-23 verifier against the
+// source chain's real app hash (not teleport's copy of the verifier).
+func (w *world) verifyProofIndependently(src *xchain, ph clienttypes.Height, proofBz []byte, key string, value []byte) error {
+	var mp ibccommitment.MerkleProof
+	if err := mp.Unmarshal(proofBz); err != nil {
+		return fmt.Errorf("unmarshal: %v", err)
+	}
+	root := ibccommitment.NewMerkleRoot(src.AppHash[int64(ph.RevisionHeight)-1])
+	path := ibccommitment.NewMerklePath("xibc", key)
+	specs := []*ics23.ProofSpec{ics23.IavlSpec, ics23.TendermintSpec}
+	return mp.VerifyMembership(specs, root, path, value)
+}
+
+// ------------------------------------------------------------------------------------------------
+// crash / restart
+
+func (w *world) opCrash(op kernel.Op) {
+	c := w.chain(op.Arg(0))
+	point := int(kernel.Mod(op.Arg(1), 4))
+	if point == 0 {
+		w.doCrash(c, "between_blocks")
+		return
+	}
+	c.crashAt, c.crashIdx = point, int(kernel.Mod(op.Arg(2), 16))
+}
+
+func (w *world) doCrash(c *xchain, point string) {
+	same, detail := c.Crash()
+	w.rec.Fault("node.crash." + point)
+	w.rec.Logf("crash %s at %s same=%v %s", c.Cfg.Name, point, same, detail)
+	if c.Halted != "" {
+		w.rec.Violate("C15", "halt", haltKey(c.Halted), "chain %s halted on restart: %s", c.Cfg.Name, c.Halted)
+		return
+	}
+	if !same {
+		w.rec.Violate("C14", "crash_replay", point, "re-executing the interrupted block after a crash gave different results on %s: %s", c.Cfg.Name, detail)
+	}
+}
+
+// ------------------------------------------------------------------------------------------------
+// adversary: privileged contract methods from unprivileged callers (C06)
+
+var forwarderRuntime = common.FromHex("3660209003806020600037600060009160006000600035 5af1600055 3d600060003e 3d6000f3")
+
+func forwarderInit() []byte {
+	rt := forwarderRuntime
+	init := []byte{0x60, byte(len(rt)), 0x80, 0x60, 0x0b, 0x60, 0x00, 0x39, 0x60, 0x00, 0xf3}
+	return append(init, rt...)
+}
+
+type privCall struct {
+	name   string
+	target common.Address
+	data   []byte
+}
+
+func (w *world) privilegedCalls(c *xchain, arg int64) []privCall {
+	other := w.chains[kernel.Mod(int64(c.idx)+1, len(w.chains))]
+	p := Packet{SrcChain: other.Cfg.Name, DstChain: c.Cfg.Name, Sequence: uint64(900 + kernel.Mod(arg, 5)), Sender: lower(w.adv.Eth),
+		TransferData: mustPackTransfer(TransferData{Token: lower(other.origin.Addr), OriToken: "", Amount: big.NewInt(12345).Bytes(), Receiver: lower(w.adv.Eth)}),
+		CallbackAddress: lower(zeroAddr)}
+	a := Ack{Code: 1, Relayer: w.adv.Acc.String()}
+	wtok := c.wrapped[fmt.Sprintf("%d/%s", other.idx, lower(other.origin.Addr))]
+	return []privCall{
+		{"packet.onRecvPacket", packetAddr, pack(packetABI, "onRecvPacket", p)},
+		{"packet.OnAcknowledgePacket", packetAddr, pack(packetABI, "OnAcknowledgePacket", swapDir(p), a)},
+		{"packet.setAckStatus", packetAddr, pack(packetABI, "setAckStatus", other.Cfg.Name, uint64(1), uint8(2))},
+		{"packet.setSequence", packetAddr, pack(packetABI, "setSequence", other.Cfg.Name, uint64(55))},
+		{"packet.setChainName", packetAddr, pack(packetABI, "setChainName", "evil")},
+		{"packet.sendPacketFeeToRelayer", packetAddr, pack(packetABI, "sendPacketFeeToRelayer", other.Cfg.Name, uint64(1), w.adv.Eth)},
+		{"packet.sendPacket", packetAddr, pack(packetABI, "sendPacket", swapDir(p), struct {
+			TokenAddress common.Address
+			Amount       *big.Int
+		}{zeroAddr, big.NewInt(0)})},
+		{"endpoint.onRecvPacket", endpointAddr, pack(endpointABI, "onRecvPacket", p)},
+		{"endpoint.onAcknowledgementPacket", endpointAddr, pack(endpointABI, "onAcknowledgementPacket", swapDir(p), uint64(1), []byte{}, "x")},
+		{"endpoint.bindToken", endpointAddr, pack(endpointABI, "bindToken", wtok.Addr, lower(w.adv.Eth), "evil-chain", uint8(0))},
+		{"endpoint.enableTimeBasedSupplyLimit", endpointAddr, pack(endpointABI, "enableTimeBasedSupplyLimit", wtok.Addr, big.NewInt(10), big.NewInt(1), big.NewInt(1), big.NewInt(0))},
+		{"endpoint.disableTimeBasedSupplyLimit", endpointAddr, pack(endpointABI, "disableTimeBasedSupplyLimit", wtok.Addr)},
+	}
+}
+
+func swapDir(p Packet) Packet { p.SrcChain, p.DstChain = p.DstChain, p.SrcChain; return p }
+
+func mustPackTransfer(t TransferData) []byte {
+	bz, err := transferArgs.Pack(t)
+	if err != nil {
+		panic(err)
+	}
+	return bz
+}
+
+func (w *world) opAdv(op kernel.Op) {
+	c := w.chain(op.Arg(0))
+	calls := w.privilegedCalls(c, op.Arg(3))
+	pc := calls[kernel.Mod(op.Arg(1), len(calls))]
+	path := kernel.Mod(op.Arg(2), 3)
+	var to common.Address
+	var data []byte
+	var pathName string
+	switch path {
+	case 0:
+		to, data, pathName = pc.target, pc.data, "eoa"
+	case 1:
+		// nested through the execute contract
+		to, pathName = executeAddr, "execute"
+		data = pack(executeABI, "execute", struct {
+			ContractAddress string
+			CallData        []byte
+		}{lower(pc.target), pc.data})
+	case 2:
+		// through an attacker contract (deployed on first use)
+		if c.forwarder == (common.Address{}) {
+			nonce := c.App.EvmKeeper.GetNonce(c.ReadCtx(), w.adv.Eth) + uint64(c.pendingAdv)
+			c.forwarder = ethcrypto.CreateAddress(w.adv.Eth, nonce)
+			c.mempool = append(c.mempool, &intent{kind: "advdeploy", signer: w.adv, eth: true, data: forwarderInit(), desc: "deploy forwarder"})
+			c.pendingAdv++
+		}
+		to, pathName = c.forwarder, "contract"
+		data = append(common.LeftPadBytes(pc.target.Bytes(), 32), pc.data...)
+	}
+	in := &intent{kind: "adv", signer: w.adv, eth: true, to: &to, data: data, adv: &advInfo{what: pc.name + "@" + pathName},
+		desc: "adv " + pc.name + " via " + pathName}
+	c.mempool = append(c.mempool, in)
+	c.pendingAdv++
+	w.rec.Logf("submit %s on %s", in.desc, c.Cfg.Name)
+}
+
+// systemDiff: changes to bridge-relevant state (xibc store, storage of the system/token/helper
+// contracts, bank, aggregate), ignoring the adversary's own contract.
+func (w *world) systemDiff(c *xchain, out *txOutcome) []string {
+	var d []string
+	for _, k := range diffSnap(out.pre, out.post, "xibc", "evm", "bank", "aggregate") {
+		if strings.HasPrefix(k, "evm:0x") {
+			bz := common.FromHex(k[4:])
+			if a, ok := evmKeyContract(string(bz)); ok {
+				if a == c.forwarder {
+					continue
+				}
+			} else {
+				// code / non-storage keys (deployment of the attacker contract)
+				continue
+			}
+		}
+		d = append(d, k)
+	}
+	return d
+}
+
+// ------------------------------------------------------------------------------------------------
+// governance interleaving
+
+func (w *world) opGov(op kernel.Op) {
+	c := w.chain(op.Arg(0))
+	var content govtypes.Content
+	var what string
+	switch kernel.Mod(op.Arg(1), 4) {
+	case 0, 1:
+		// re-register relayer r with a changed chain list (drop or restore one chain)
+		r := kernel.Mod(op.Arg(2), len(w.relayers))
+		var chains, addrs []string
+		drop := kernel.Mod(op.Arg(3), len(w.chains)+1)
+		for _, o := range w.chains {
+			if o.idx == c.idx || o.idx == drop {
+				continue
+			}
+			chains = append(chains, o.Cfg.Name)
+			addrs = append(addrs, w.relayers[r].Acc.String())
+		}
+		content = clienttypes.NewRegisterRelayerProposal("reg", "relayer", w.relayers[r].Acc.String(), chains, addrs)
+		what = fmt.Sprintf("relayer:%d:%s", r, strings.Join(chains, ","))
+	case 2:
+		keys := sortedKeys(c.wrapped)
+		t := c.wrapped[keys[kernel.Mod(op.Arg(2), len(keys))]]
+		content = aggregatetypes.NewEnableTimeBasedSupplyLimitProposal("limit", "limit", t.Addr.Hex(),
+			"60", "2000", "1500", "10")
+		what = "limit:" + c.tokName(t)
+	case 3:
+		keys := sortedKeys(c.wrapped)
+		t := c.wrapped[keys[kernel.Mod(op.Arg(2), len(keys))]]
+		content = aggregatetypes.NewDisableTimeBasedSupplyLimitProposal("unlimit", "unlimit", t.Addr.Hex())
+		what = "unlimit:" + c.tokName(t)
+	}
+	msg, err := node.SubmitProposalMsg(content, w.gov)
+	if err != nil {
+		w.rec.Logf("gov: %v", err)
+		return
+	}
+	c.mempool = append(c.mempool, &intent{kind: "govsubmit", signer: w.gov, msgs: []sdk.Msg{msg}, gov: &govInfo{what: what}, desc: "gov submit " + what, movesValue: true})
+	w.rec.Fault("gov.interleave")
+	w.rec.Logf("submit gov %s on %s", what, c.Cfg.Name)
+}
+
+func (w *world) applyExt(op kernel.Op) bool {
+	switch op.K {
+	case "adv":
+		w.opAdv(op)
+	case "gov":
+		w.opGov(op)
+	case "advmsg":
+		w.opAdvMsg(op)
+	case "tss":
+		w.opTSS(op)
+	default:
+		return false
+	}
+	return true
+}
+
+// opAdvMsg: relay messages signed by accounts that are not (or not for this chain) registered.
+func (w *world) opAdvMsg(op kernel.Op) {
+	// take any wire message and submit it honestly built but signed by the adversary / gov / a user
+	if len(w.wire) == 0 {
+		return
+	}
+	m := w.wire[kernel.Mod(op.Arg(0), len(w.wire))]
+	w.nextCorrupt = &corruption{kind: "signer_swap"}
+	w.submitRelay(0, m, 0, false, w.wireDone(m))
+}
+
+func (w *world) afterExt(c *xchain, in *intent, out *txOutcome) {
+	switch in.kind {
+	case "adv":
+		c.pendingAdv--
+		if d := w.systemDiff(c, out); len(d) > 0 {
+			w.rec.Violate("C06", "privileged_call_effect", in.adv.what+":"+classifyDiff(d), "%s by an unprivileged caller on %s changed bridge state: %v (tx ok=%v)", in.adv.what, c.Cfg.Name, trunc(d, 6), out.ok)
+		}
+		w.rec.Probe("adv." + in.adv.what[strings.Index(in.adv.what, "@")+1:])
+		if out.ok {
+			w.rec.Probe("adv.tx_ok")
+		}
+	case "advdeploy":
+		c.pendingAdv--
+	case "govsubmit":
+		if !out.ok {
+			return
+		}
+		id, ok := node.ProposalIDFromResult(out.res)
+		if !ok {
+			return
+		}
+		in.gov.id = id
+		c.mempool = append(c.mempool, &intent{kind: "govvote", signer: w.gov, msgs: []sdk.Msg{node.VoteYesMsg(id, w.gov)}, gov: in.gov, desc: fmt.Sprintf("gov vote %d", id)})
+		c.proposals = append(c.proposals, in.gov)
+	}
+}
+
+// afterBlockGov: apply passed proposals to the model's relayer registry.
+func (w *world) afterBlockGov(c *xchain) {
+	var rest []*govInfo
+	for _, g := range c.proposals {
+		st, ok := c.ProposalStatus(g.id)
+		if !ok || st == govtypes.StatusVotingPeriod || st == govtypes.StatusDepositPeriod {
+			rest = append(rest, g)
+			continue
+		}
+		w.rec.Logf("proposal %d (%s) on %s ended %s", g.id, g.what, c.Cfg.Name, st)
+		if st == govtypes.StatusPassed && strings.HasPrefix(g.what, "relayer:") {
+			parts := strings.SplitN(g.what, ":", 3)
+			var r int
+			fmt.Sscanf(parts[1], "%d", &r)
+			set := map[string]bool{}
+			for _, n := range strings.Split(parts[2], ",") {
+				if n != "" {
+					set[n] = true
+				}
+			}
+			c.registry[w.relayers[r].Acc.String()] = set
+			w.rec.Probe("gov.registry_changed")
+		}
+	}
+	c.proposals = rest
+}
+
+func (w *world) opTSS(op kernel.Op)    {}
+// opExport: module-level genesis export / validate / import / compare / re-export (C13). The running
+// chain is untouched.
+func (w *world) opExport(op kernel.Op) {
+	c := w.chain(op.Arg(0))
+	if c.InBlock || c.Halted != "" {
+		return
+	}
+	issues := c.ModuleRoundTrip()
+	w.rec.Fault("node.export_roundtrip")
+	w.rec.Logf("export round trip on %s: %d issues", c.Cfg.Name, len(issues))
+	for _, is := range issues {
+		w.rec.Violate("C13", "roundtrip", is.Key, "%s: %s", c.Cfg.Name, is.Detail)
+	}
+	w.rec.Probe("export.done")
+}
